@@ -28,7 +28,7 @@ STR_PASSTHRU = {"str", "unicode", "repr", "format"}
 
 
 class Prov:
-    MAX_DEPTH = 16
+    MAX_DEPTH = 40
 
     def __init__(self, prog, M, T, public_pred=None):
         self.prog, self.M, self.T = prog, M, T
@@ -205,6 +205,11 @@ class Prov:
             elif isinstance(n, ast.AugAssign) and isinstance(n.target, ast.Name) and n.target.id == e.id:
                 assigned = True
                 out |= self.origin(n.value, fc, depth + 1, ch)
+            elif isinstance(n, ast.Expr) and isinstance(n.value, ast.Call) and isinstance(n.value.func, ast.Attribute) \
+                    and n.value.func.attr in ("append", "extend", "add", "insert") and isinstance(n.value.func.value, ast.Name) \
+                    and n.value.func.value.id == e.id and n.value.args:
+                # elements put into a local container
+                out |= self.origin(n.value.args[-1], fc, depth + 1, ch)
             elif isinstance(n, (ast.For, ast.comprehension)):
                 if any(isinstance(x, ast.Name) and x.id == e.id for x in ast.walk(n.target)):
                     assigned = True
@@ -488,6 +493,13 @@ class Prov:
             return {("CONST", ch)}
         if fn == "cast" and len(e.args) == 2:
             return self.origin(e.args[1], fc, depth + 1, ch)
+        if fn in ("reversed", "sorted", "list", "tuple", "iter", "set", "frozenset") and e.args:
+            return self.origin(e.args[0], fc, depth + 1, ch)  # same elements, other order / container
+        if fn == "next" and e.args:
+            out = self.origin(e.args[0], fc, depth + 1, ch)
+            if len(e.args) > 1:
+                out = out | self.origin(e.args[1], fc, depth + 1, ch)
+            return out
         if fn in ("os.path.basename", "os.path.split", "os.path.splitext", "posixpath.basename", "os.path.abspath",
                   "os.path.join"):
             out = set()
